@@ -537,6 +537,54 @@ def _reads_of(e, out=None):
     elif isinstance(e, LoopIR.Extern):
         for a in e.args:
             _reads_of(a, out)
+    elif isinstance(e, LoopIR.WindowExpr):
+        out.append((None, e.name))
+        for w in e.idx:
+            if isinstance(w, LoopIR.Interval):
+                _reads_of(w.lo, out)
+                _reads_of(w.hi, out)
+            else:
+                _reads_of(w.pt, out)
+    return out
+
+
+def _stmt_reads(st):
+    """(path, name) of every variable read anywhere in the statement (indices, right-hand
+    sides, conditions, bounds, call arguments), recursively."""
+    out = []
+
+    def ex(e):
+        if e is not None:
+            _reads_of(e, out)
+
+    def rec(s_):
+        if isinstance(s_, (LoopIR.Assign, LoopIR.Reduce)):
+            for e in s_.idx:
+                ex(e)
+            ex(s_.rhs)
+        elif isinstance(s_, LoopIR.WriteConfig):
+            ex(s_.rhs)
+        elif isinstance(s_, LoopIR.If):
+            ex(s_.cond)
+            for x in s_.body:
+                rec(x)
+            for x in s_.orelse:
+                rec(x)
+        elif isinstance(s_, LoopIR.For):
+            ex(s_.lo)
+            ex(s_.hi)
+            for x in s_.body:
+                rec(x)
+        elif isinstance(s_, LoopIR.Call):
+            for e in s_.args:
+                ex(e)
+        elif isinstance(s_, LoopIR.WindowStmt):
+            ex(s_.rhs)
+        elif isinstance(s_, LoopIR.Alloc):
+            for h in s_.type.shape() if s_.type.is_tensor_or_window() else []:
+                ex(h)
+
+    rec(st)
     return out
 
 
@@ -720,7 +768,7 @@ def prop_fission(r, S, pid, f):
     x = _pick(r, cands)
     if not x:
         return None
-    return [A_gap(pid, x[0], r.random() < 0.6)], {"n_lifts": r.choice([1, 1, 2])}
+    return [A_gap(pid, x[0], r.random() < 0.6)], {"n_lifts": r.choice([1, 1, 2, 2, 3])}
 
 
 def prop_autofission(r, S, pid, f):
@@ -1257,11 +1305,13 @@ class Session:
                                         rd1.add(e.name)
 
                     used2 = set()
+                    mod2 = set()
 
                     def scan2(ss):
                         for st in ss:
                             if isinstance(st, (LoopIR.Assign, LoopIR.Reduce)):
                                 used2.add(st.name)
+                                mod2.add(st.name)
                                 for _p, nm in _reads_of(st.rhs):
                                     used2.add(nm)
                             elif isinstance(st, LoopIR.If):
@@ -1275,11 +1325,20 @@ class Session:
                                 for e in st.args:
                                     if isinstance(e, (LoopIR.Read, LoopIR.WindowExpr)):
                                         used2.add(e.name)
+                                        if e.type.is_numeric():
+                                            mod2.add(e.name)
 
                     scan1(first)
                     scan2(second)
+                    # the recorded defect (Commutes_Fissioning's `a1_idempotent` shortcut): the first half
+                    # never mentions the loop variable, and the SECOND half MODIFIES (assigns / reduces)
+                    # a location the first half writes.  When the second half only reads it the shortcut
+                    # is valid, so a difference there is something else.
+                    first_mentions_it = any(
+                        nm_ == it for st in first for _p, nm_ in _stmt_reads(st)
+                    )
                     for nm, invs in wr.items():
-                        if any(invs) and nm not in rd1 and nm in used2:
+                        if any(invs) and nm not in rd1 and nm in mod2 and not first_mentions_it:
                             return "invariant-location-written-then-used"
                 level -= 1
                 cut_after = False
@@ -1575,6 +1634,11 @@ def generate_and_run(seed: int, cfg: dict, log_keep=False) -> dict:
     r_ops = substream(seed, "ops")
     r_fault = substream(seed, "faults")
     gen_cfg = {"configs": cfg.get("configs", False), "par": cfg.get("par", False), "calls": cfg.get("calls", True)}
+    stratum = cfg.get("stratum")
+    if stratum:
+        gen_cfg["motifs"] = [stratum[0]]
+        if stratum[0] in ("config", "cfg_rwo", "cfg_callee"):
+            gen_cfg["configs"] = True
     data = {
         "engine": "session",
         "gen_cfg": gen_cfg,
@@ -1644,18 +1708,24 @@ def generate_and_run(seed: int, cfg: dict, log_keep=False) -> dict:
                 if run_rec({"op": "call_eqv", "on": "p", "out": f"r{k}", "args": [A_node("p", pth), A_proc(cur)], "kw": {}, "stale": False}):
                     live.append(f"r{k}")
 
-    for i in range(n_ops):
+    n_first = 3 if stratum and stratum[1] in PROPOSERS and stratum[1] in ops_allowed else 0
+    for i in range(n_ops + n_first):
         if S.viol and not cfg.get("survey"):
             break
+        # stratified session: the stratum's primitive is applied to the pristine program
+        # with three independent argument draws before the history continues at random
+        forced_op = stratum[1] if i < n_first else None
         # choose target: mostly the newest descendant of p, sometimes older ones or a library proc
         u = r_ops.random()
-        if u < 0.70:
+        if forced_op:
+            pid = "p"
+        elif u < 0.70:
             pid = live[-1]
         elif u < 0.88:
             pid = r_ops.choice(live)
         else:
             pid = r_ops.choice([q for q in S.procs if q in gen_prog.LIB_PROCS[:4]] or live)
-        if r_ops.random() < cfg.get("compile_rate", 0.0):
+        if not forced_op and r_ops.random() < cfg.get("compile_rate", 0.0):
             rec = {"op": "compile", "on": pid, "out": None, "args": [], "kw": {}}
             if r_fault.random() < max(fault_rate, cfg.get("compile_fault_rate", 0.0)):
                 rec["fault"] = {"kind": r_fault.choice(["F3c", "F3i"]), "u": r_fault.random()}
@@ -1668,7 +1738,7 @@ def generate_and_run(seed: int, cfg: dict, log_keep=False) -> dict:
         stale = False
         src_pid = pid
         # stale cursor: build the cursor on an ancestor, let the op forward it implicitly
-        if S.parent.get(pid) is not None and r_ops.random() < cfg.get("stale_rate", 0.15):
+        if not forced_op and S.parent.get(pid) is not None and r_ops.random() < cfg.get("stale_rate", 0.15):
             anc = S.parent[pid]
             if r_ops.random() < 0.4 and S.parent.get(anc) is not None:
                 anc = S.parent[anc]
@@ -1681,7 +1751,9 @@ def generate_and_run(seed: int, cfg: dict, log_keep=False) -> dict:
             # program's motifs exercise (gen_prog.G.AFFINITY); a primitive without a
             # target in this procedure is re-drawn a few times
             fol = [o for o in FOLLOW.get(last_ok, ()) if o in ops_allowed] if _try == 0 else []
-            if fol and pid == live[-1] and r_ops.random() < follow_rate:
+            if forced_op:
+                name = forced_op
+            elif fol and pid == live[-1] and r_ops.random() < follow_rate:
                 name = r_ops.choice(fol)
             elif affine and r_ops.random() < affinity_rate:
                 name = r_ops.choice(affine)
